@@ -11,6 +11,8 @@ pub mod refzip;
 pub mod sio;
 pub mod gen;
 pub mod genf;
+pub mod seeds;
+pub mod robust;
 
 use engine::{Ctx, Mode, Tier};
 use std::process::{Command, Stdio};
